@@ -536,8 +536,10 @@ def _mvn_table(ctx: Ctx) -> bool:
     }
     bad, rows = None, 0
     try:
-        for dim in (1, -2):
-            for key, xs in batches.items():
+        # (last two: frame-by-frame accumulation - every batch a single frame handed in as a plain vector, feature axis 0 / -1)
+        vecs = [np.array([4, 9, 1]), np.array([2, 0, 5])]
+        for dim, key_xs in [(d_, kv_) for d_ in (1, -2) for kv_ in batches.items()] + [(0, (4, vecs)), (-1, (4, vecs))]:
+            for key, xs in (key_xs,):
                 for bessel in (False, True):
                     for delete in (True, False):
                         env = {"self.dim": dim, "self.eps": Fr(1, 1000), "self.count": None, "self.sum": None, "self.sumsq": None,
